@@ -474,6 +474,8 @@ func runBlock(r *simk.Run, f focus) *simk.Violation {
 		// balances: mostly ample, sometimes exactly the fees or one short
 		balMode := c.Weighted(8, 1, 1, 1)
 		memoKeys := c.Bool(0.3) // the balance handler hands out one cached sponsor key set (read-only by contract)
+		ResetActionKeys(c.Bool(0.3))
+		defer ResetActionKeys(false)
 		for i := 0; i < nSponsors; i++ {
 			kv[string(envBalKey(sp[i]))] = binary.BigEndian.AppendUint64(nil, balances[i])
 		}
